@@ -546,6 +546,10 @@ class Engine:
 
     def _oblige(self, name, cond):
         self.stats["obligations"] += 1
+        if type(cond).__name__ == "Undecided":
+            self.stats["undecided"] += 1
+            self.undecided_names.append(f"{name} ({cond.why}) @ {self.config}")
+            return
         if hasattr(cond, "ok") and hasattr(cond, "why"):
             cond = bool(cond)
         if isinstance(cond, (bool, np.bool_)):
@@ -615,7 +619,9 @@ class Engine:
         reproduced = (name in failing) or bool(exc) or (why == "exception" and exc)
         if not reproduced and failing:
             reproduced = True        # another obligation fails concretely on this witness
-        if not reproduced and not rep.get("harness_exception"):
+        self._witness_budget = getattr(self, "_witness_budget", self.o.get("witness_searches", 24))
+        if not reproduced and not rep.get("harness_exception") and self._witness_budget > 0:
+            self._witness_budget -= 1
             # the solver's witness lives in an abstraction (free cos/sin/exp/rint symbols) or sits where the defect is
             # invisible (e.g. all phases zero): look for a concrete witness of the SAME failing obligation among a few
             # seeded random inputs that satisfy the harness assumptions; only a reproduced failure is ever reported.
@@ -721,6 +727,11 @@ class Engine:
         except PathAbort as e:
             aborted = True
             self.stats["aborted_paths"] += 1
+        except P.TermTooLarge as e:
+            aborted = True
+            self.stats["aborted_paths"] += 1
+            self.stats["incomplete"] = True
+            self.undecided_names.append(f"path given up: {e} @ {self.config}")
         except S.SymbolicLeak as e:
             self.errors.append(dict(kind="symbolic-leak", config=self.config, msg=str(e),
                                     tb=traceback.format_exc(limit=12)))
